@@ -23,6 +23,11 @@ big = amount > 1000
 match: not amount >= 0
 tags: refund
 
+[Wallet]
+match: startswith("APLPAY")
+category: Shopping
+subcategory: Grocery
+
 [Alfa]
 match: contains("ALFA")
 category: Food
@@ -45,8 +50,8 @@ tags: income
 match: any(r.amount == txn.amount for r in orders)
 tags: matched
 '''
-RULE_EXPR = {1: 'contains("ALFA")', 2: 'contains("ALFA") and over and amount > 0', 4: '"PAYROLL" in description'}
-PROBES = [('nv1', 1500.0), ('nv1', 5.0), ('nv2', -800.0), ('nv3', -2.0), ('nv4', -7.0), ('nv3', 12.5)]
+RULE_EXPR = {6: 'startswith("APLPAY")', 1: 'contains("ALFA")', 2: 'contains("ALFA") and over and amount > 0', 4: '"PAYROLL" in description'}
+PROBES = [('nv1', 1500.0), ('nv1', 5.0), ('nv2', -800.0), ('nv3', -2.0), ('nv4', -7.0), ('nv3', 12.5), ('nvp', 5.0), ('nvq', 9.0)]
 
 
 def budget_case(item):
@@ -169,11 +174,11 @@ def run(ck):
         for dd in diffs:
             clause, detail = dd[0], dd[1]
             feats = dd[2] if len(dd) > 2 else []
-            ck.violation({'site': clause.split('-')[0], 'clause': clause, 'rules': b['rules'], 'mode': b['mode'], 'features': feats},
-                         {'budget': b, 'detail': detail}, 'budget %s: %s' % (json.dumps({k: b[k] for k in ('rules', 'mode', 'supp')}), detail))
+            ck.violation({'site': clause.split('-')[0], 'clause': clause, 'rules': b['rules'], 'mode': b['mode'], 'xform': b.get('xform', False), 'features': feats},
+                         {'budget': b, 'detail': detail}, 'budget %s: %s' % (json.dumps({k: b[k] for k in ('rules', 'mode', 'supp', 'xform')}), detail))
     ck.sample({'budget': items[0][0], 'probe': PROBES[0], 'spec': items[0][2][0]})
     ck.extra['rule'] = ('every distinct budget on TLC -simulate walks over MC_Pipeline: `tally up --format json -v`, `tally explain <merchant>` for '
-                        'every merchant, `tally explain "<description>" --amount a` for 6 descriptions that are in no statement (compared with '
+                        'every merchant, `tally explain "<description>" --amount a` for 8 descriptions that are in no statement (compared with '
                         'Pipeline!Explain), `tally discover --format json --limit 0` (compared with the Unknown part of Pipeline!Report). '
                         'non-trivial = budget with rules')
     ck.exhaustive = False
